@@ -14,13 +14,13 @@ SPEC = {
              'universe containing the decoded characters, the undecoded spellings and metacharacter-sensitive names, with '
              'the same call on the text produced by an independent left-to-right decoder without RAWCHARS; exception types '
              'must agree with the decoder\'s verdict. Piece compositions also carry their AST meaning with and without '
-             'RAWCHARS and are judged by the reference model. A case is one (pattern text, type, mode); it is non-trivial '
+             'RAWCHARS and are judged by the reference model. Templates with BRACE / SPLIT / NEGATE / extended-group / separator metacharacters written as escapes are run through every entry point (fnmatch, filter, translate, globmatch, globfilter, exclude=, glob, iglob, Path.glob/rglob, PurePath.globmatch, WcMatch file and exclude patterns; str and bytes) and compared with the same call on the plain text without RAWCHARS. A case is one (pattern text, type, mode); it is non-trivial '
              'when the text contains a backslash.'),
-    'bounds': {'quick': {'exhaustive_length': 4, 'compositions_per_shard': 250},
-               'thorough': {'exhaustive_length': '5, length 6 sampled', 'compositions': 'until the time budget'}},
+    'bounds': {'quick': {'exhaustive_length': 4, 'compositions_per_shard': 250, 'meta_escape_cases_per_shard': 120},
+               'thorough': {'exhaustive_length': '5, length 6 sampled (until the time budget)', 'compositions_per_shard': 3000, 'meta_escape_cases_per_shard': 3000}},
     'floor': {'quick': 300000, 'thorough': 3000000},
     'required_counters': ['decode_equivalence_checks', 'syntax_errors_expected_and_seen', 'decoded_patterns',
-                          'ast_judged', 'wcmatch_walks'],
+                          'ast_judged', 'wcmatch_walks', 'meta_escape_checks'],
     'budget': {'quick': 50, 'thorough': 600},
     'shard_timeout': {'quick': 400, 'thorough': 1800},
     'assumptions': ['the decoder in wcverif/rawdecode.py is the meaning C20 assigns to RAWCHARS'],
@@ -211,13 +211,112 @@ def check_composition(ctx, rng, wtree):
         ctx.sample({'composition': text, 'meaning_without_RAWCHARS': gen.ser(ast_off), 'names_tried': len(names)})
 
 
+# ---- escapes that spell a metacharacter: decoding comes first, then the text is read like any other pattern, in EVERY entry point
+META_ESC = {
+    '{': ['\\x7b', '\\173', '\\N{LEFT CURLY BRACKET}', '\\u007b', '\\x7B'],
+    ',': ['\\x2c', '\\54', '\\N{COMMA}', '\\054'],
+    '}': ['\\x7d', '\\175', '\\N{RIGHT CURLY BRACKET}', '\\U0000007d'],
+    '|': ['\\x7c', '\\174', '\\N{VERTICAL LINE}', '\\u007C'],
+    '!': ['\\x21', '\\41', '\\N{EXCLAMATION MARK}'],
+    '-': ['\\x2d', '\\55'],
+    '/': ['\\x2f', '\\57', '\\N{SOLIDUS}'],
+    '*': ['\\x2a', '\\52', '\\N{ASTERISK}'],
+    '(': ['\\x28', '\\50'], ')': ['\\x29', '\\51'], '@': ['\\x40', '\\100'],
+    '[': ['\\x5b', '\\133'], ']': ['\\x5d', '\\135'], '.': ['\\x2e', '\\56'], '~': ['\\x7e', '\\176'],
+}
+META_TEMPLATES = ['{a,b}', 'x{a,b}', '{a,b}|A', 'a|b', '!a', '*|!a', '-a', '@(a|b)', 'd*/f', '{dA,J}/f', '**/f', '[ab]', 'a{1..2}',
+                  '{a,b', 'a,b', 'a|', '|a', '{A,{a,b}}', '!(a)', '*(a|b)', 'd[Aa]/f|J/f', '{a,b}/', '*/f|!dA/f', '.|..', '~',
+                  'A{,A}', '{d1,da}/{f,g}', '**/{f,g}|a']
+META_FLAGSETS = [('BRACE',), ('SPLIT',), ('BRACE', 'SPLIT'), ('NEGATE',), ('NEGATE', 'SPLIT'), ('NEGATE', 'MINUSNEGATE', 'SPLIT'),
+                 ('EXTMATCH',), ('EXTMATCH', 'SPLIT', 'BRACE'), ('GLOBSTAR', 'BRACE'), ('GLOBSTAR', 'SPLIT', 'NEGATE'), (),
+                 ('NEGATE', 'NEGATEALL', 'BRACE'), ('GLOBTILDE', 'BRACE')]
+
+
+def spell(rng, template, is_bytes):
+    out = []
+    for ch in template:
+        opts = [o for o in META_ESC.get(ch, ()) if not (is_bytes and o[1] in 'NuU')]
+        out.append(rng.choice(opts) if opts and rng.random() < 0.55 else ch)
+    return ''.join(out)
+
+
+def check_meta_escapes(ctx, rng, wtree):
+    from ..common import P
+    template = rng.choice(META_TEMPLATES)
+    fnames = rng.choice(META_FLAGSETS)
+    is_bytes = rng.random() < 0.3
+    raw = spell(rng, template, is_bytes)
+    try:
+        if '\\' not in raw or rawdecode.decode(raw, is_bytes) != template:
+            return
+    except Exception:  # noqa: BLE001
+        return
+    enc = (lambda x: x.encode('latin-1')) if is_bytes else (lambda x: x)
+    root = enc(wtree)
+    names = [enc(n) for n in ('a', 'b', 'A', 'AA', 'x', '{a,b}', 'xa', 'xb', 'a|b', 'a,b', '!a', '-a', 'dA/f', 'J/f', 'da/f', 'd1/f', 'a1', 'a2',
+                              '(a)', '@(a|b)', 'ab', '.', '..', '~', 'd1/g', 'f', '{a,b', 'a|', '', 'dA/', 'a/', 'b/')]
+    names = [n for n in names if n]
+
+    def fl(mod, raw_on):
+        v = 0
+        for n in fnames:
+            n2 = {'EXTMATCH': 'EXTGLOB'}.get(n, n) if mod is G else n
+            if mod is F and n in ('GLOBSTAR', 'GLOBTILDE'):
+                continue
+            v |= getattr(mod, n2, 0) or getattr(mod, n, 0)
+        return v | (mod.RAWCHARS if raw_on else 0)
+
+    def fs(fn):
+        cwd = os.getcwd()
+        os.chdir(wtree)
+        try:
+            return outcome(fn)
+        finally:
+            os.chdir(cwd)
+
+    entry = [
+        ('fnmatch.filter', lambda t, r: outcome(lambda: F.filter(names, enc(t), flags=fl(F, r)))),
+        ('fnmatch.translate', lambda t, r: outcome(lambda: F.translate(enc(t), flags=fl(F, False)) if not r else F.translate(enc(t), flags=fl(F, True)))),
+        ('fnmatch.fnmatch', lambda t, r: outcome(lambda: [F.fnmatch(n, enc(t), flags=fl(F, r)) for n in names])),
+        ('fnmatch.filter(exclude=)', lambda t, r: outcome(lambda: F.filter(names, enc('*'), flags=fl(F, r), exclude=enc(t)))),
+        ('glob.globfilter', lambda t, r: outcome(lambda: G.globfilter(names, enc(t), flags=fl(G, r)))),
+        ('glob.translate', lambda t, r: outcome(lambda: G.translate(enc(t), flags=fl(G, r)))),
+        ('glob.compile', lambda t, r: outcome(lambda: [bool(G.compile(enc(t), flags=fl(G, r)).match(n)) for n in names])),
+        ('glob.globmatch(exclude=)', lambda t, r: outcome(lambda: [G.globmatch(n, enc('**'), flags=fl(G, r) | G.GLOBSTAR, exclude=enc(t)) for n in names])),
+        ('glob.glob', lambda t, r: outcome(lambda: sorted(G.glob(enc(t), flags=fl(G, r), root_dir=root)))),
+        ('glob.iglob(list)', lambda t, r: outcome(lambda: sorted(G.iglob([enc(t), enc('N')], flags=fl(G, r), root_dir=root)))),
+        ('glob.glob(exclude=)', lambda t, r: outcome(lambda: sorted(G.glob(enc('*'), flags=fl(G, r), root_dir=root, exclude=enc(t))))),
+        ('glob.glob(REALPATH match)', lambda t, r: fs(lambda: [G.globmatch(n, enc(t), flags=fl(G, r) | G.REALPATH) for n in names])),
+    ]
+    if not is_bytes:
+        entry += [
+            ('Path.glob', lambda t, r: outcome(lambda: sorted(str(x) for x in P.Path(wtree).glob(t, flags=fl(G, r))))),
+            ('Path.rglob', lambda t, r: outcome(lambda: sorted(str(x) for x in P.Path(wtree).rglob(t, flags=fl(G, r))))),
+            ('PurePath.globmatch', lambda t, r: outcome(lambda: [P.PurePosixPath(n).globmatch(t, flags=fl(G, r)) for n in names])),
+            ('WcMatch(file)', lambda t, r: outcome(lambda: sorted(WM.WcMatch(wtree, t, flags=(WM.RAWCHARS if r else 0) | WM.HIDDEN | WM.RECURSIVE | (WM.BRACE if 'BRACE' in fnames else 0) | (WM.EXTMATCH if 'EXTMATCH' in fnames else 0) | (WM.MINUSNEGATE if 'MINUSNEGATE' in fnames else 0)).match()))),
+            ('WcMatch(exclude)', lambda t, r: outcome(lambda: sorted(WM.WcMatch(wtree, '*', t, (WM.RAWCHARS if r else 0) | WM.HIDDEN | WM.RECURSIVE | (WM.BRACE if 'BRACE' in fnames else 0) | (WM.EXTMATCH if 'EXTMATCH' in fnames else 0)).match()))),
+        ]
+    for label, call in entry:
+        a = call(raw, True)
+        b = call(template, False)
+        ctx.evals()
+        ctx.count('meta_escape_checks')
+        if a != b:
+            ctx.disagree(f'RAWCHARS {label}: an escape spelling a metacharacter is not read like the character itself',
+                         {'pattern': raw, 'decoded': template, 'flags': list(fnames), 'bytes': is_bytes, 'entry': label,
+                          'with_rawchars': repr(a)[:300], 'decoded_without': repr(b)[:300], 'mode': 'meta-escape'})
+    ctx.mark_nontrivial(('meta', raw, fnames, is_bytes))
+
+
 def make_wtree():
     _base, root = env.mknested('c20-')
-    for n in ('A', 'AA', 'x41', 'a', '1', 'u0041', 'A1', '101', 'x', '\t', '\\x41', 'N', '*'):
+    for n in ('A', 'AA', 'x41', 'a', '1', 'u0041', 'A1', '101', 'x', '\t', '\\x41', 'N', '*', 'b', '{a,b}', 'a|b', 'a,b', '!a', '-a', 'xa', 'xb',
+              'a1', 'a2', '(a)', '~', '{a,b'):
         open(os.path.join(root, n), 'w').close()
     for dn in ('dA', 'J', 'dx41', 'd1', 'da'):
         os.mkdir(os.path.join(root, dn))
         open(os.path.join(root, dn, 'f'), 'w').close()
+    open(os.path.join(root, 'd1', 'g'), 'w').close()
     return root
 
 
@@ -225,6 +324,21 @@ def run(ctx):
     quick = ctx.quick
     wtree = make_wtree()
     try:
+        k = 0
+        limit = 250 if quick else 3000
+        while k < limit and not ctx.out_of_time():
+            k += 1
+            rng = ctx.rng_for('comp', ctx.shard, k)
+            with ctx.case(label=('composition', k)):
+                check_composition(ctx, rng, wtree if k % 3 == 0 else None)
+        ctx.count('compositions', k)
+        k = 0
+        limit = 120 if quick else 3000
+        while k < limit and not ctx.out_of_time():
+            k += 1
+            rng = ctx.rng_for('meta', ctx.shard, k)
+            with ctx.case(label=('meta-escape', k)):
+                check_meta_escapes(ctx, rng, wtree)
         idx = 0
         plan = [(n, 100) for n in range(1, (4 if quick else 5) + 1)]
         if not quick:
@@ -243,14 +357,6 @@ def run(ctx):
                     check_text(ctx, text, wtree if idx % 7 == 0 else None)
                 if idx % 20000 == 1:
                     ctx.sample({'pattern': text, 'decoder_says': repr(expected_exception(text, False))})
-        k = 0
-        limit = 250 if quick else 10 ** 9
-        while k < limit and not ctx.out_of_time():
-            k += 1
-            rng = ctx.rng_for('comp', ctx.shard, k)
-            with ctx.case(label=('composition', k)):
-                check_composition(ctx, rng, wtree if k % 3 == 0 else None)
-        ctx.count('compositions', k)
     finally:
         shutil.rmtree(wtree[:-len('/w/x/y/root')], ignore_errors=True)
 
@@ -258,6 +364,12 @@ def run(ctx):
 def replay(ctx, w):
     wtree = make_wtree()
     try:
+        if w.get('mode') == 'meta-escape':
+            for k in range(1, 4000):
+                check_meta_escapes(ctx, ctx.rng_for('meta', k % 16, k // 16 + 1), wtree)
+                if ctx.violations:
+                    break
+            return ctx.violations or None
         check_text(ctx, w['pattern'], wtree)
     finally:
         shutil.rmtree(wtree[:-len('/w/x/y/root')], ignore_errors=True)
